@@ -15,7 +15,7 @@ if os.path.exists(p):
             base[t[1]] = t[2].split("=")[1]
 out = ["# Detection matrix: every quick check against every own mutant and every seeded change", "",
        "Produced by `mutants/matrix.sh` (isolated copy of /repo and of the harness) and `tools/mkresults.py`.",
-       "Cell = exit code of `./check <id> quick` equivalent: 1 = VIOLATION reported, 0 = no violation, 3/4/124/134 = machinery failure (build error, watchdog, abort of the code under test), - = not run (seeded changes are run against their owner and C01, C03, C07, C09, C11, C12; own mutants against all 18).",
+       "Cell = exit code of `./check <id> quick` equivalent: 1 = VIOLATION reported, 0 = no violation, 3/4/124/134 = machinery failure (build error, watchdog, abort of the code under test), - = not run in this (final-harness) matrix: own mutants are run against their owner and C01, C03, C07, C09, C11, C12, seeded changes against their owner and C12 (the check that owns swallowed errors); what other checks caught in earlier runs is kept in each `seeded/*/meta.json` (`caught_by`).",
        "`owner` is the property the change was written for. `baseline` (own mutants) says whether the crate's own 34 tests still pass with the change (a change that fails them is uninformative and kept only for the record).", ""]
 hdr = "| change | owner | baseline | caught by | " + " | ".join(ids) + " |"
 out += [hdr, "|" + "---|" * (4 + len(ids))]
@@ -32,7 +32,13 @@ for r in rows[1:]:
         mp = f"/verif/seeded/{name}/meta.json"
         owner = name.split("-")[0]
         if os.path.exists(mp):
-            m = json.load(open(mp)); m["caught_by"] = caught; m["matrix_row"] = dict(zip(ids, cells))
+            m = json.load(open(mp))
+            # checks not run in this matrix ("-") keep what an earlier run recorded for them
+            not_run = {i for i, c in zip(ids, cells) if c == "-"}
+            earlier = [c for c in m.get("caught_by", []) if c in not_run]
+            m["caught_by_on_final_harness"] = caught
+            m["caught_by"] = caught + [c for c in earlier if c not in caught]
+            m["matrix_row"] = dict(zip(ids, cells))
             json.dump(m, open(mp, "w"), indent=1)
     if b != "FAIL":
         summary[kind][1] += 1
